@@ -123,6 +123,24 @@ def handle : List String → String
         let p := GV.Spec.SrcMap.placeAt (GV.Spec.SrcMap.posOf r.out) (m.genLine, m.genColumn)
         { m with genLine := p.1, genColumn := p.2 })
     | _, _ => "bad-op"
+  | ["fsseq", segs, dict] =>
+    let d := parseDict dict
+    let decode : Bytes → Nat := fun pl => (lookup d (toHex pl)).toNat?.getD 0
+    let parseFs (x : String) : FileSetSpec :=
+      (x.splitOn "/").filterMap fun f =>
+        match f.splitOn ":" with
+        | [n, sz, stp] => some ⟨n, sz.toNat?.getD 0, stp.toNat?.getD 1⟩
+        | _ => none
+    let segl : List (FileSetSpec × List Bytes) := (segs.splitOn ";").filterMap fun sg =>
+      match sg.splitOn "@" with
+      | [fs, cs] => (parseChunks cs).map fun c => (parseFs fs, c)
+      | _ => none
+    let r := writeSeq decode init segl
+    let showO (o : Orig) : String := match o with
+      | some (f, l, c) => s!"{f}:{l}:{c}"
+      | none => "-:0:0"
+    let ms := if r.2.isEmpty then "-" else ";".intercalate (r.2.map fun m => s!"{m.line}:{m.column}:{showO m.orig}")
+    s!"{toHex r.1} {ms}"
   | "ctx" :: dict :: toks =>
     let d := parseDict dict
     let pack : Nat → Bytes := fun p => (parseHex (lookup d (toString p))).getD [0xEE]
